@@ -6,6 +6,8 @@
 #include "libphysica/Numerics.hpp"
 #include "libphysica/Special_Functions.hpp"
 #include "libphysica/Statistics.hpp"
+#include <sys/wait.h>
+#include <unistd.h>
 using namespace libphysica;
 
 static const double GLT[8] = {-0.9602898564975363, -0.7966664774136267, -0.5255324099163290, -0.1834346424956498,
@@ -49,7 +51,7 @@ static void scan(const std::vector<Pair>& ps, vh::Out& o, std::function<double(d
 		}
 }
 
-static void handler(vh::Reader& r, vh::Out& o)
+static void do_case(vh::Reader& r, vh::Out& o)
 {
 	std::string op = r.word();
 	if(op == "uniform")
@@ -290,6 +292,13 @@ static void handler(vh::Reader& r, vh::Out& o)
 		for(int j = 0; j + 1 < points; j++)
 			o.f(kde(xs[j] + (xs[j + 1] - xs[j]) / 2));
 		o.f(kde.Integrate(xs[0], xs[points - 1]));
+		// two more ordinates per segment (with the two ends and the middle they determine the segment's cubic)
+		for(int j = 0; j + 1 < points; j++)
+		{
+			double h = xs[j + 1] - xs[j];
+			o.f(kde(xs[j] + h / 4));
+			o.f(kde(xs[j] + 0.75 * h));
+		}
 	}
 	// the functions of Special_Functions.cpp the distributions delegate to (oracle pass)
 	else if(op == "d_gammaQ")
@@ -318,5 +327,70 @@ static void handler(vh::Reader& r, vh::Out& o)
 	}
 	else
 		o.w("HARNESSERR unknown_op");
+}
+// Requests of the likelihood family are call histories: each such case line is answered by a process of its own, forked from the worker
+// before the worker has made the calls of that line, so that what a case observes depends on the calls written in the case line only
+// (and a replay of the line alone sees the same history).  The child's outcome (exit status, signal) becomes the worker's outcome.
+static bool is_history(const std::string& w) { return w == "lik" || w == "lik0" || w == "likseq" || w == "liksess" || w == "binned" || w == "binned0"; }
+static void handler(vh::Reader& r, vh::Out& o)
+{
+	if(r.i >= r.t.size() || !is_history(r.t[r.i]))
+	{
+		do_case(r, o);
+		return;
+	}
+	int pfd[2];
+	if(pipe(pfd) != 0)
+	{
+		o.w("HARNESSERR no_pipe");
+		return;
+	}
+	fflush(stdout);
+	fflush(stderr);
+	pid_t pid = fork();
+	if(pid < 0)
+	{
+		o.w("HARNESSERR no_fork");
+		return;
+	}
+	if(pid == 0)
+	{
+		close(pfd[0]);
+		alarm(18);
+		vh::Out oc;
+		do_case(r, oc);
+		std::string t = oc.s.str() + "\n";
+		size_t off	  = 0;
+		while(off < t.size())
+		{
+			ssize_t w = write(pfd[1], t.c_str() + off, t.size() - off);
+			if(w <= 0)
+				break;
+			off += w;
+		}
+		fflush(stdout);
+		fflush(stderr);
+		_exit(0);
+	}
+	close(pfd[1]);
+	std::string ans;
+	char b[4096];
+	ssize_t k;
+	while((k = read(pfd[0], b, sizeof b)) > 0)
+		ans.append(b, k);
+	close(pfd[0]);
+	int st = 0;
+	waitpid(pid, &st, 0);
+	if(WIFSIGNALED(st))
+	{
+		signal(WTERMSIG(st), SIG_DFL);
+		raise(WTERMSIG(st));
+		_exit(1);
+	}
+	if(!WIFEXITED(st) || WEXITSTATUS(st) != 0)
+		_exit(WIFEXITED(st) ? WEXITSTATUS(st) : 1);
+	while(!ans.empty() && (ans.back() == '\n' || ans.back() == ' '))
+		ans.pop_back();
+	o.w(ans);
 }
 int main(int argc, char** argv) { return vh::run(argc, argv, handler); }
